@@ -31,6 +31,45 @@ pub mod iv_host {
                 Duration::new(secs, nanos)
             }
 
+            /// The operator impls of SimTime (time/mod.rs, time/duration.rs) follow the nanosecond counts: this is the contract the
+            /// Verus unit `interval` ASSUMES for `SimTime + Duration`, `SimTime - Duration`, `SimTime - SimTime`.
+            // Stated on (seconds, sub-second nanoseconds) — 64/32-bit arithmetic CBMC decides in seconds — which is equivalent to the
+            // statement on the nanosecond count secs * 10^9 + nanos (128-bit products gave no verdict in 150 s).
+            const G: u64 = 1_000_000_000;
+
+            #[kani::proof]
+            fn simtime_plus_duration_follows_nanoseconds() {
+                let a = any_time();
+                let d = any_dur();
+                let r = a + d;
+                let ns = a.subsec_nanos() as u64 + d.subsec_nanos() as u64;
+                let carry = if ns >= G { 1 } else { 0 };
+                assert!(r.as_secs() == a.as_secs() + d.as_secs() + carry);
+                assert!(r.subsec_nanos() as u64 == ns - carry * G);
+            }
+
+            #[kani::proof]
+            fn simtime_minus_duration_follows_nanoseconds() {
+                let a = any_time();
+                let d = any_dur();
+                kani::assume(*a >= d);
+                let r = a - d;
+                let borrow = if a.subsec_nanos() < d.subsec_nanos() { 1 } else { 0 };
+                assert!(r.as_secs() == a.as_secs() - d.as_secs() - borrow);
+                assert!(r.subsec_nanos() as u64 == a.subsec_nanos() as u64 + borrow * G - d.subsec_nanos() as u64);
+            }
+
+            #[kani::proof]
+            fn simtime_minus_simtime_follows_nanoseconds() {
+                let a = any_time();
+                let b = any_time();
+                kani::assume(a >= b);
+                let r: Duration = a - b;
+                let borrow = if a.subsec_nanos() < b.subsec_nanos() { 1 } else { 0 };
+                assert!(r.as_secs() == a.as_secs() - b.as_secs() - borrow);
+                assert!(r.subsec_nanos() as u64 == a.subsec_nanos() as u64 + borrow * G - b.subsec_nanos() as u64);
+            }
+
             /// Burst: the next tick is one period after the tick that was due; Delay: one period after now.
             #[kani::proof]
             fn next_timeout_burst_and_delay() {
